@@ -232,6 +232,8 @@ pub fn gen(stream: &str, tier: &str, seed: u64) -> Vec<String> {
                             for comp in compositions(enc.len()) {
                                 let plain: Vec<String> = comp.iter().map(|c| format!("c{}", c)).collect();
                                 out.push(format!("poll v3 {} {} eof", hex(&enc), plain.join(",")));
+                                let init: Vec<String> = comp.iter().enumerate().map(|(j, c)| format!("{}{}", if j % 2 == 0 { "i" } else { "c" }, c)).collect();
+                                out.push(format!("poll v3 {} {} eof", hex(&enc), init.join(",")));
                                 // Pending (with drop) before a read chosen by the composition's shape
                                 let mut withp: Vec<String> = Vec::new();
                                 for (j, c) in comp.iter().enumerate() {
@@ -336,6 +338,8 @@ pub fn gen(stream: &str, tier: &str, seed: u64) -> Vec<String> {
                             for comp in compositions(enc.len()) {
                                 let plain: Vec<String> = comp.iter().map(|c| format!("c{}", c)).collect();
                                 out.push(format!("poll v5 {} {} eof", hex(&enc), plain.join(",")));
+                                let init: Vec<String> = comp.iter().enumerate().map(|(j, c)| format!("{}{}", if j % 2 == 0 { "i" } else { "c" }, c)).collect();
+                                out.push(format!("poll v5 {} {} eof", hex(&enc), init.join(",")));
                                 let mut withp: Vec<String> = Vec::new();
                                 for (j, c) in comp.iter().enumerate() {
                                     if (j + comp.len()) % 2 == 0 {
@@ -377,6 +381,90 @@ pub fn gen(stream: &str, tier: &str, seed: u64) -> Vec<String> {
                         f.extend_from_slice(body);
                         out.push(format!("dec v5 {}", hex(&f)));
                         out.push(format!("poll v5 {} - eof", hex(&f)));
+                    }
+                }
+            }
+        }
+        "v3sub1" | "v5sub1" | "v3sub1s" | "v5sub1s" => {
+            // EXHAUSTIVE single-byte substitution: for short valid packets of every type (several shapes
+            // each), every byte position receives every one of the 255 other values.  This sweeps every
+            // flag byte, code byte, property identifier, option byte and length byte through its whole
+            // domain in its real context, so the tie on these one-byte tables is exhaustive, not sampled.
+            // `…s` = the same frames through the independent specification (`spec` op).
+            let v3 = stream.starts_with("v3");
+            let as_spec = stream.ends_with('s');
+            let fam = &stream[..2];
+            let per_type = if thorough { 20 } else { 6 };
+            let max_len = if thorough { 80 } else { 48 };
+            let types = if v3 { V3_TYPES } else { V5_TYPES };
+            // CONNECT flag sweep: all 256 flag bytes, each with the body that flag byte calls for
+            // (will fields iff bit 2, user name iff bit 7, password iff bit 6), for every protocol level
+            let levels: &[(&[u8], u8)] = if v3 { &[(b"MQTT", 4), (b"MQIsdp", 3)] } else { &[(b"MQTT", 5)] };
+            for (name, level) in levels {
+                for b in 0..=255u8 {
+                    let mut body = vec![0, name.len() as u8];
+                    body.extend_from_slice(name);
+                    body.extend_from_slice(&[*level, b, 0, 10]);
+                    if !v3 {
+                        body.push(0);
+                    }
+                    body.extend_from_slice(&[0, 1, b'c']);
+                    if b & 4 != 0 {
+                        if !v3 {
+                            body.push(0);
+                        }
+                        body.extend_from_slice(&[0, 1, b'w', 0, 1, b'm']);
+                    }
+                    if b & 0x80 != 0 {
+                        body.extend_from_slice(&[0, 1, b'u']);
+                    }
+                    if b & 0x40 != 0 {
+                        body.extend_from_slice(&[0, 1, b'p']);
+                    }
+                    let mut f = vec![0x10, body.len() as u8];
+                    f.extend_from_slice(&body);
+                    if as_spec {
+                        out.push(format!("spec {} {}", fam, hex(&f)));
+                    } else {
+                        out.push(format!("dec {} {}", fam, hex(&f)));
+                        out.push(format!("poll {} {} - eof", fam, hex(&f)));
+                    }
+                }
+            }
+            let mut seen = std::collections::HashSet::new();
+            for t in 0..types {
+                let mut got = 0;
+                let mut tries = 0;
+                while got < per_type && tries < 400 {
+                    tries += 1;
+                    let enc = if v3 {
+                        gen_v3(&mut rng, t, Sizes { big: false }).encode().map(|e| e.as_ref().to_vec())
+                    } else {
+                        gen_v5(&mut rng, t, Sizes { big: false }, [3u8, 2, 0, 3][tries % 4], tries).encode().map(|e| e.as_ref().to_vec())
+                    };
+                    let enc = match enc {
+                        Ok(e) if e.len() <= max_len => e,
+                        _ => continue,
+                    };
+                    // prefer distinct shapes: key = (length, first bytes)
+                    if !seen.insert((enc.len(), enc.iter().take(4).cloned().collect::<Vec<u8>>())) {
+                        continue;
+                    }
+                    got += 1;
+                    for pos in 0..enc.len() {
+                        for v in 0..=255u8 {
+                            if v == enc[pos] {
+                                continue;
+                            }
+                            let mut f = enc.clone();
+                            f[pos] = v;
+                            if as_spec {
+                                out.push(format!("spec {} {}", fam, hex(&f)));
+                            } else {
+                                out.push(format!("dec {} {}", fam, hex(&f)));
+                                out.push(format!("poll {} {} - eof", fam, hex(&f)));
+                            }
+                        }
                     }
                 }
             }
@@ -459,6 +547,9 @@ pub fn gen(stream: &str, tier: &str, seed: u64) -> Vec<String> {
                 }
                 if rng.chance(1, 2) {
                     items.push(if rng.chance(1, 3) { "z".into() } else { format!("e:{}", rng.pick(&KINDS)) });
+                }
+                if rng.chance(1, 3) {
+                    items.insert(0, "g".into()); // the same script on a sink that gathers vectored writes
                 }
                 let sink = if items.is_empty() { "-".to_string() } else { items.join(",") };
                 out.push(format!("enca {} {} {}", fam, sink, text));
